@@ -86,3 +86,10 @@ M("bpwalk-mask-one", "cauchy.py", "    mask = grad != 0\n", "    mask = grad != 
 M("bpwalk-stop-after-update", "cauchy.py", "        if delta_t_min < delta_t:\n            is_gpc_found = True\n            break\n", "", ["BPWALK"],
   also=[("cauchy.py", "        c += delta_t * p\n", "        c += delta_t * p\n        if delta_t_min < delta_t:\n            is_gpc_found = True\n            break\n")])
 M("sign-pin-negated-test", "cauchy.py", "        if d[ibp] > 0:\n", "        if not d[ibp] > 0:\n", ["SIGN"])
+
+# ---- INVMSYM (round-4 sweep survivors in form_invMfactors / bmv)
+M("invmsym-inverse-dropped", "bfgsmats.py", "    invD.flat[:: D.shape[0] + 1] = 1 / np.diag(D)\n", "    invD.flat[:: D.shape[0] + 1] = np.diag(D)\n", ["INVMSYM"])
+M("invmsym-T-minus", "bfgsmats.py", "    J = sp.linalg.cholesky(theta * STS + L @ invD @ L.T, lower=True)\n", "    J = sp.linalg.cholesky(theta * STS - L @ invD @ L.T, lower=True)\n", ["INVMSYM"], canary=True)
+M("invmsym-sign-upper", "bfgsmats.py", "                np.vstack([-np.sqrt(D), np.zeros(D.shape)]),  # upper row\n", "                np.vstack([np.sqrt(D), np.zeros(D.shape)]),  # upper row\n", ["INVMSYM"])
+M("invmsym-sign-lower", "bfgsmats.py", "                np.vstack([np.sqrt(D), -(np.sqrt(invD) @ L.T).T]),  # upper row\n", "                np.vstack([np.sqrt(D), (np.sqrt(invD) @ L.T).T]),  # upper row\n", ["INVMSYM"])
+M("invmsym-bmv-factors-swapped", "bfgsmats.py", "        invMfactors[1],\n", "        invMfactors[0],\n", ["INVMSYM"])
